@@ -9,6 +9,8 @@ OBLIGATIONS = [
     ob('C01.roots', 'verif_frag::traversal::c01_per_root', 'per-root set-up of list_search_results (verbatim loop body on a shim world), for all option values and whatever state an earlier root left: the root is traversed once, with its own symlink flag, depth window (levels from this root), traversal mode, archives and ignore options', units=['traversal']),
     ob('C01.ok_to_visit', 'verif_frag::traversal::c01_ok_to_visit', 'ok_to_visit_dir (verbatim body on a shim world), for all inodes: a directory entry is entered iff its own inode was not visited before and it is not a symlink or symlinks are followed; only the entry own inode is recorded', units=['traversal']),
     ob('C01.prologue', 'verif_frag::traversal::c01_prologue', 'prologue of visit_dir (verbatim): a directory is skipped up front iff symlinks are followed and it was already visited, for all depth options', units=['traversal']),
+    dict(id='C01.rootopt', engine='V', verus_fn='Parser::parse_root_options', label='C01.rootopt', complete=True, bound=None, units=[], harness='verus:Parser::parse_root_options', tier='quick',
+         desc='real parse_root_options, every token vector: an option list made only of depth options (`mindepth N`, `maxdepth N`, `depth N`, any letter case, N = the u32 the word denotes) that ends at the end of the input or at a non-word token yields min_depth / max_depth exactly as written (last one wins, defaults 0 / 0 = unlimited, nothing else set) and leaves the terminating token for the caller'),
 ]
 CANARIES = [dict(harness=GW + 'canary_gates_must_fail', units=['gate_report']), dict(harness=GD + 'canary_depth_must_fail', units=['gate_depth']), dict(harness='verif_frag::traversal::canary_traversal_must_fail', units=['traversal'])]
 ASSUMPTIONS = [
